@@ -50,6 +50,7 @@ struct Stats {
     nontrivial: Vec<E>,
     samples: Vec<Value>,
     notes: Vec<String>,
+    errs: BTreeMap<String, u64>,
 }
 impl Stats {
     fn add(&mut self, k: &'static str, n: u64) {
@@ -71,11 +72,24 @@ fn family_of(cfg: &str, e: &E) -> String {
     fn kinds(e: &E, out: &mut Vec<String>) {
         let k = match e {
             E::Col(_) | E::Lit(_) => None,
-            E::Bin(_, op, _) => Some(format!("{op:?}")),
+            E::Bin(_, op, _) => Some(
+                if op.is_cmp() {
+                    "Cmp"
+                } else if op.is_arith() {
+                    "Arith"
+                } else if op.is_bit() {
+                    "Bit"
+                } else if op.is_regex() {
+                    "Regex"
+                } else {
+                    "AndOr"
+                }
+                .to_string(),
+            ),
             E::Not(_) => Some("Not".into()),
             E::Neg(_) => Some("Neg".into()),
-            E::Is(_, k) => Some(format!("Is{k:?}")),
-            E::In { neg, .. } => Some(if *neg { "NotIn".into() } else { "In".into() }),
+            E::Is(..) => Some("Is".into()),
+            E::In { .. } => Some("In".into()),
             E::Between { .. } => Some("Between".into()),
             E::Case { operand, .. } => Some(if operand.is_some() { "CaseOf".into() } else { "Case".into() }),
             E::Cast { try_, .. } => Some(if *try_ { "TryCast".into() } else { "Cast".into() }),
@@ -289,6 +303,12 @@ fn check_expr(e: &E, only: Option<&str>, thorough: bool, st: &mut Stats) -> Vec<
             Ok(s) => s,
             Err(err) => {
                 st.add("simplifier_returned_error", 1);
+                {
+                    let m = err.to_string();
+                    let m = m.lines().next().unwrap_or("");
+                    let digits_out: String = m.chars().take(70).collect();
+                    *st.errs.entry(digits_out).or_insert(0) += 1;
+                }
                 if orig.batch_ok {
                     st.add("simplifier_error_while_original_evaluates_everywhere", 1);
                     if st.notes.len() < 8 {
@@ -620,9 +640,18 @@ fn flush(ctx: &Ctx, st: Stats) {
         }
     }
     for n in st.notes {
-        ctx.assume(&format!("note: {n}"));
+        if NOTES.fetch_add(1, std::sync::atomic::Ordering::Relaxed) < 12 {
+            ctx.assume(&format!("note: {n}"));
+        }
+    }
+    let mut g = ERRS.lock().unwrap();
+    for (k, v) in st.errs {
+        *g.entry(k).or_insert(0) += v;
     }
 }
+
+static NOTES: std::sync::atomic::AtomicUsize = std::sync::atomic::AtomicUsize::new(0);
+static ERRS: Mutex<BTreeMap<String, u64>> = Mutex::new(BTreeMap::new());
 
 fn explore(ctx: &Ctx) {
     let thorough = ctx.thorough();
@@ -683,7 +712,11 @@ fn explore(ctx: &Ctx) {
                 found.lock().unwrap().push(Found {
                     nodes: whole.nodes(),
                     text: whole.to_string(),
-                    family: "preds".into(),
+                    family: if whole.contains(&|x| matches!(x, E::Lit(rx::Lit::Null(_)))) {
+                        "preds:with-NULL-literal".into()
+                    } else {
+                        "preds".into()
+                    },
                     key: format!("preds|{whole}"),
                     what,
                     case: serde_json::to_value(&case).unwrap(),
@@ -692,6 +725,7 @@ fn explore(ctx: &Ctx) {
         }
         flush(ctx, st);
     });
+    ctx.set_extra("simplifier_error_kinds", json!(*ERRS.lock().unwrap()));
     // Report deterministically: group the failing cases into families (same
     // configuration kind, same set of node kinds), and report the smallest case
     // of each family, smallest families first.
